@@ -33,7 +33,7 @@ def REQUIRED(tier):
 
 def _required(tier):
     return ["files_cleaned", "hook:apply_mask", "hook:apply_method", "hook:apply_funcn", "mask_union_checks", "vectors:mad", "vectors:iqrm", "vector:all_equal", "vector:planted_outlier",
-            "file_samples_compared", "regime:multi_block", "roundtrip_checks", "freq:empty_list", "freq:outside_band", "freq:overlapping", "freq:limit_on_centre", "algebra_histories", "regime:subrange_cleaned", "regime:negative_float_samples", "regime:float_mask_value_outside_0_255", "custom_function_input_checks", "regime:cleaning_after_a_refused_call", "regime:integer_valued_custom_mask", "band:ascending", "second_cleaning_on_same_reader", "roundtrip:saved_over_an_existing_mask_file"]
+            "file_samples_compared", "regime:multi_block", "roundtrip_checks", "freq:empty_list", "freq:outside_band", "freq:overlapping", "freq:limit_on_centre", "algebra_histories", "regime:subrange_cleaned", "regime:negative_float_samples", "regime:float_mask_value_outside_0_255", "custom_function_input_checks", "regime:cleaning_after_a_refused_call", "regime:integer_valued_custom_mask", "band:ascending", "second_cleaning_on_same_reader", "roundtrip:saved_over_an_existing_mask_file", "vector:mostly_tied", "algebra:duplicate_taken_mid_history"]
 
 
 def cases(tier, seed):
@@ -377,7 +377,18 @@ def _vectors(case, ctx):
         rng = np.random.default_rng([case["seed"], j, 17])
         n = int(rng.integers(12, 200))
         cls = str(rng.choice(["normal", "all_equal", "planted_outlier", "ties", "lognormal"]))
-        if cls == "all_equal":
+        if j % 5 == 4:
+            cls = "mostly_tied"
+        if cls == "mostly_tied":
+            # more than half of the channels are dead (their statistic is exactly the same number); the live ones scatter on both sides of it,
+            # with one violent channel on one side and a moderate one on the other
+            x = np.full(n, float(rng.choice([0.0, -3.0, 1.5])))
+            live = rng.choice(n, size=max(4, n // 2 - 2 - int(rng.integers(0, n // 4))), replace=False)
+            x[live] += rng.normal(size=live.size) * 0.3
+            sgn = float(rng.choice([-1, 1]))
+            x[live[0]] += sgn * float(rng.choice([500.0, 90.0, 2000.0]))
+            x[live[1]] -= sgn * float(rng.uniform(2.0, 8.0))
+        elif cls == "all_equal":
             x = np.full(n, float(rng.normal() * 10))
         elif cls == "ties":
             x = rng.integers(0, 4, size=n).astype(float)
@@ -432,7 +443,15 @@ def _algebra(case, ctx):
         ctx.evaluated(); ctx.count("algebra_histories")
         one = {"kind": "algebra", "n": 1, "seed": case["seed"], "only": j}
         seen = np.zeros(nch, dtype=bool)
-        for _ in range(int(rng.integers(2, 7))):
+        twin = twin_snap = None
+        for it in range(int(rng.integers(2, 7))):
+            if it == 1:
+                # a duplicate of the mask taken mid-way (to try other settings on): what is applied to the original later is not applied to the duplicate
+                import copy
+
+                twin = copy.copy(m) if j % 2 else __import__("attrs").evolve(m, threshold=m.threshold + 1.0)
+                twin_snap = np.array(twin.chan_mask, dtype=bool)
+                ctx.count("algebra:duplicate_taken_mid_history")
             kind = int(rng.integers(0, 3))
             if kind == 0:
                 a, b = sorted(rng.uniform(1500.0 - nch, 1500.0, size=2))
@@ -450,6 +469,14 @@ def _algebra(case, ctx):
                 ctx.violation("mask-shrunk:history", f"after {ops[-1]} channels {np.flatnonzero(seen & ~cur)[:5].tolist()} masked earlier are no longer masked (history {ops})", one)
                 break
             seen |= cur
+        if twin is not None:
+            if not np.array_equal(np.array(twin.chan_mask, dtype=bool), twin_snap):
+                ctx.violation("mask-changed-without-apply:duplicate", f"a duplicate of the mask taken after the first step gained channels {np.flatnonzero(np.array(twin.chan_mask, dtype=bool) & ~twin_snap)[:6].tolist()} although nothing was applied to it (history on the original: {ops})", one)
+            else:
+                before = np.array(m.chan_mask, dtype=bool)
+                twin.apply_mask([(1500.0 - nch, 1500.0)])
+                if not np.array_equal(np.array(m.chan_mask, dtype=bool), before):
+                    ctx.violation("mask-changed-without-apply:original", f"masking the whole band in a duplicate changed the original mask (history {ops})", one)
         for ev in _hook["events"]:
             ctx.count(f"hook:{ev}")
         for mech, msg in _hook["viol"]:
